@@ -1,5 +1,8 @@
 """C01 — Mendelian fidelity of the seven mating protocols (and of the mat_*/dense_* utilities).
 
+Round 3: histories on one protocol object, aliasing probes, narrow index dtypes, wide / long / many-cross sizes, tiny
+magnitudes, rarely used argument forms, draws through random()/random_sample(); util Spec evaluated in Lean.
+
 Correspondence: the real `<Protocol>.mate()` is run through its public interface with a *recording*
 generator (a subclass of numpy's Generator / RandomState, so `check_is_Generator_or_RandomState`
 passes): either a genuine bit generator whose `uniform` draws are logged, or a scripted one that
@@ -12,6 +15,7 @@ import contextlib
 import copy
 import importlib
 import inspect
+import json
 import random
 from fractions import Fraction
 
@@ -55,19 +59,26 @@ def _mods():
 
 # ---------------------------------------------------------------------------------- generators
 def _script(rs, xo, den, shape):
-    """boundary-seeking draws in [0,1), all multiples of 1/den; column j is compared with xo[j]"""
+    """boundary-seeking draws in [0,1), all multiples of 1/den; column j is compared with xo[j].
+    Exact 0.0, the tie r == xoprob (no crossover), one step below the tie (crossover), and -- the values
+    tolerance-style rewrites (isclose / eps / clip) trip over -- tiny positive draws (2^-53 .. ~1e-5)"""
     n, m = shape
     out = numpy.empty(shape, dtype=float)
+    tiny = [Fraction(1, den)] + [Fraction(1, 2 ** k) for k in (50, 40, 30, 27, 17) if den % (2 ** k) == 0]
     for i in range(n):
         for j in range(m):
             x = Fraction(xo[j])
             t = rs.random()
-            if t < 0.25:
+            if t < 0.22:
                 v = Fraction(0)
-            elif t < 0.45:
+            elif t < 0.40:
                 v = x                                     # tie  r == xoprob  (no crossover)
-            elif t < 0.60:
+            elif t < 0.54:
                 v = x - Fraction(1, den)                  # one step below the tie (crossover)
+            elif t < 0.62:
+                v = rs.choice(tiny)                       # tiny but positive
+            elif t < 0.66:
+                v = x + rs.choice(tiny)                   # just above the tie (no crossover)
             else:
                 v = Fraction(rs.randrange(den), den)
             if not (0 <= v < 1):
@@ -77,7 +88,7 @@ def _script(rs, xo, den, shape):
 
 
 class _RecGen(numpy.random.Generator):
-    """numpy Generator whose `uniform` calls are logged (and optionally scripted)"""
+    """numpy Generator whose unit-interval draws (`uniform`, `random`) are logged (and optionally scripted)"""
 
     def __init__(self, bitgen, script=None):
         super().__init__(bitgen)
@@ -94,21 +105,53 @@ class _RecGen(numpy.random.Generator):
         self.log.append(numpy.array(x, dtype=float).copy())
         return x
 
+    def random(self, size=None, dtype=numpy.float64, out=None):
+        shape = tuple(size) if isinstance(size, (tuple, list)) else (None if size is None else (int(size),))
+        self.calls.append((0.0, 1.0, shape))
+        if self._script is None or shape is None:
+            x = super().random(size, dtype=dtype, out=out)
+        else:
+            x = numpy.asarray(self._script(shape)).astype(dtype)
+            if out is not None:
+                out[...] = x
+                x = out
+        self.log.append(numpy.array(x, dtype=float).copy())
+        return x
+
 
 class _RecRS(numpy.random.RandomState):
-    def __init__(self, seed):
+    """RandomState whose `uniform` / `random_sample` (= `random`, `rand`) draws are logged (optionally scripted)"""
+
+    def __init__(self, seed, script=None):
         super().__init__(seed)
         self.log = []
         self.calls = []
+        self._script = script
 
     def uniform(self, low=0.0, high=1.0, size=None):
         self.calls.append((float(low), float(high), tuple(size) if size is not None else None))
-        x = super().uniform(low, high, size)
+        if self._script is None:
+            x = super().uniform(low, high, size)
+        else:
+            x = self._script(tuple(size))
+        self.log.append(numpy.array(x, dtype=float).copy())
+        return x
+
+    def random_sample(self, size=None):
+        shape = tuple(size) if isinstance(size, (tuple, list)) else (None if size is None else (int(size),))
+        self.calls.append((0.0, 1.0, shape))
+        if self._script is None or shape is None:
+            x = super().random_sample(size)
+        else:
+            x = self._script(shape)
         self.log.append(numpy.array(x, dtype=float).copy())
         return x
 
 
 def _make_rng(spec, xo):
+    """`xo` is either the list of crossover probabilities or a holder {"xo": [...]} that a history updates
+    before each call (scripted draws seek the ties of the probabilities in force)"""
+    hold = xo if isinstance(xo, dict) else {"xo": xo}
     mode = spec["mode"]
     if mode == "pcg64":
         return _RecGen(numpy.random.PCG64(spec["seed"])), TWO53
@@ -117,7 +160,7 @@ def _make_rng(spec, xo):
     if mode == "randomstate":
         return _RecRS(spec["seed"]), TWO53
     if mode == "explicit":
-        mats = [numpy.array(m, dtype=float).reshape(len(m), len(xo)) / spec["den"] for m in spec["mats"]]
+        mats = [numpy.array(m, dtype=float).reshape(len(m), len(hold["xo"])) / spec["den"] for m in spec["mats"]]
         it = iter(mats)
 
         def nxt(shape):
@@ -135,10 +178,13 @@ def _make_rng(spec, xo):
             state["k"] += 1
             return numpy.full(shape, v, dtype=float)
         return _RecGen(numpy.random.PCG64(0), script=const), spec["den"]
-    if mode == "scripted":
+    if mode in ("scripted", "scripted_rs"):
         rs = random.Random(spec["seed"])
         den = spec["den"]
-        return _RecGen(numpy.random.PCG64(0), script=lambda shape: _script(rs, xo, den, shape)), den
+        fn = lambda shape: _script(rs, hold["xo"], den, shape)
+        if mode == "scripted_rs":
+            return _RecRS(0, script=fn), den
+        return _RecGen(numpy.random.PCG64(0), script=fn), den
     raise ValueError(mode)
 
 
@@ -182,7 +228,7 @@ def _same(a, b):
 
 def _build_pgmat(case):
     D = _mods()["D"]
-    mat = numpy.array(case["geno"], dtype="int8")
+    mat = _layout(numpy.array(case["geno"], dtype="int8"), case.get("gorder", "C"))
     ntaxa, nv = mat.shape[1], mat.shape[2]
     xo = numpy.array([float(_fr(v)) for v in case["xo"]], dtype=float)
     meta = case.get("meta", "full")
@@ -201,12 +247,36 @@ def _build_pgmat(case):
     if meta == "alleles":
         kw.update(vrnt_hapalt=_obj(["ACGT"[j % 4] for j in range(nv)]),
                   vrnt_hapref=_obj(["TGCA"[j % 4] for j in range(nv)]))
-    g = D(mat=mat, taxa=_obj([f"par{t:02d}" for t in range(ntaxa)]),
-          taxa_grp=numpy.array([t // 2 for t in range(ntaxa)], dtype="int64"),
-          vrnt_xoprob=xo, **kw)
+    if case.get("bare_taxa"):
+        g = D(mat=mat, vrnt_xoprob=xo, **kw)                  # parents without names / groups
+    else:
+        g = D(mat=mat, taxa=_obj([f"par{t:02d}" for t in range(ntaxa)]),
+              taxa_grp=numpy.array([t // 2 for t in range(ntaxa)], dtype="int64"),
+              vrnt_xoprob=xo, **kw)
     if meta != "none" and nv > 0:
         g.group_vrnt()
     return g, xo
+
+
+def _layout(a, order):
+    """the same values in another memory layout: Fortran order, or a non-contiguous view of a larger buffer"""
+    if order == "F":
+        return numpy.asfortranarray(a)
+    if order == "view":
+        big = numpy.full(tuple(2 * n + 1 for n in a.shape), 77, dtype=a.dtype)
+        v = big[tuple(slice(1, None, 2) for _ in a.shape)]
+        v[...] = a
+        return v
+    if order == "rev":
+        return numpy.ascontiguousarray(a[..., ::-1])[..., ::-1]
+    return numpy.ascontiguousarray(a)
+
+
+def _counts(v, cdtype):
+    """nmating / nprogeny as the case prescribes: Python int, numpy integer scalar, or array of a given dtype"""
+    if isinstance(v, int):
+        return v if cdtype is None else getattr(numpy, cdtype)(v)
+    return numpy.array(v, dtype=cdtype or "int64")
 
 
 def _meta_json(obj):
@@ -239,22 +309,39 @@ class C01(Prop):
     N_QUICK = 600
     N_THOROUGH = 6000
     RULE = ("all seven protocols through the public mate(): 1-8 parents x 1-24 markers, allele codes unique per "
-            "(taxon, phase[, marker]) or arbitrary int8 incl. -128/127; xconfig with selfs, repeated parents and "
-            "repeated crosses, parents addressed from the end (negative indices), 0-4 crosses; scalar and per-cross array "
-            "counts incl. zeros; one corpus case with 4100 gametes in one meiosis call; nself 0-3; xoprob with "
-            "exact 0 / 0.5 / 1 entries; counters incl. the 10^7 name-width rollover; genuine PCG64 / MT19937 / "
-            "RandomState streams and scripted draws (exact 0.0, ties r == xoprob, one step below); a 6 % stream of "
-            "inputs the code must reject; the mat_* / dense_* utilities directly.  Non-trivial = at least one "
-            "crossover drawn, at least one progeny and a cross with two distinct parents (or a heterozygous selfed parent)")
+            "(taxon, phase[, marker]), arbitrary int8 incl. -128/127, biallelic, or partly inbred (homozygous runs next to "
+            "heterozygous ones); xconfig with selfs, repeated parents and repeated crosses, parents addressed from the end "
+            "(negative indices), 0-4 crosses; scalar and per-cross array counts incl. zeros and unequal entries; nself 0-3; "
+            "xoprob with exact 0 / 0.5 / 1 and tiny (2^-52 .. 2^-17, 1-2^-53) entries; counters incl. the 10^7 name-width "
+            "rollover; genuine PCG64 / MT19937 / RandomState streams and scripted Generator / RandomState draws (exact 0.0, "
+            "ties r == xoprob, one step below / above, tiny positive 2^-53 .. 2^-17) delivered through uniform() AND random() / "
+            "random_sample() (float32 requests included).  Round-3 kinds: `hist` = 2-3 mate() calls on ONE protocol object with "
+            "the parental matrix replaced / kept / edited in place (genotypes overwritten, vrnt_xoprob re-assigned or "
+            "overwritten) and the xconfig array re-used after an in-place edit, every earlier result re-inspected at the end; "
+            "aliasing probes (write into the progeny matrix, inspect the parents, and vice versa); `narrow` = xconfig in "
+            "int8 / uint8 / int16 with more matings / rows than the dtype counts (129-139, 257-267); `wide` = 129-300 candidate "
+            "taxa with parents beyond index 127 / 255; `long` = 1025-2050 markers with crossovers next to block boundaries; "
+            ">1024 crosses, >4096 gametes in one meiosis call; rarely used argument forms (xconfig / count dtypes int8..uint64, "
+            "Fortran-ordered / strided / reversed xconfig and genotype arrays, numpy scalar counts and nself, miscout, "
+            "rng=None -> global_prng, parents without names); a 5 % stream of inputs the code must reject; the mat_* / dense_* "
+            "utilities directly (dense_* against the buffer-level model of core/util/mate.py, from-the-end and narrow-dtype "
+            "selections, partly inbred parents).  Non-trivial = at least one crossover drawn, at least one progeny and a cross "
+            "with two distinct parents (or a heterozygous selfed parent)")
     TRUSTED = ["numpy.repeat / arange / stack / lexsort / unique as modelled (Np.repeatEach, Np.arange, List.zip, "
                "Np.stableSort, Np.uniqueRuns); Python str order = code-point lexicographic order",
-               "numpy Generator / RandomState: `uniform(0,1,size)` returns multiples of 2^-53 in [0,1); the model takes the "
-               "recorded draws as input (a recording subclass logs them)",
-               "DensePhasedGenotypeMatrix constructor and group_taxa() (modelled as the stable (family, name) sort + unique runs)"]
+               "numpy Generator / RandomState: unit-interval draws are multiples of 2^-53 in [0,1); the model takes the "
+               "recorded draws as input (a recording subclass logs uniform / random / random_sample)",
+               "DensePhasedGenotypeMatrix constructor and group_taxa() (modelled as the stable (family, name) sort + unique runs)",
+               "heap model (Model/MateHeap.lean): 'numpy.empty / numpy.stack / fancy indexing return fresh arrays, basic slices "
+               "assigned by mat_meiosis target only the buffer it allocated' is read off the source, the snapshot and "
+               "aliasing probes of every case test it on the real objects"]
     ASSUMPTIONS = ["diploid input (two phases); selection indices in [-ntaxa, ntaxa) (numpy's index rule is modelled by wrapIdx)",
-                   "progeny/family counters are non-negative",
+                   "progeny/family counters are non-negative; nmating*nprogeny representable in the count dtype supplied",
                    "generation order of names is demanded only while progeny_counter + count <= 10^7 (7-digit zero fill); "
-                   "beyond that the sorted arrangement is demanded (see order_preserved_counterexample)"]
+                   "beyond that the Spec demands a permutation with every name in its family, the model (and "
+                   "order_characterised) the string-sorted arrangement (see order_preserved_counterexample)",
+                   "aliasing between the progeny matrix and the parental matrix, and a later call changing an earlier "
+                   "result, count as violations (a progeny that changes after it was returned is no longer the mosaic it was)"]
     _mask_known = False      # set while a self-test mutant runs: the known finding must not count as a kill
 
     # ------------------------------------------------------------------ generation
@@ -275,16 +362,33 @@ class C01(Prop):
                         v = (p * ntaxa + t) * nv + j - 128
                     elif style == "biallelic":
                         v = rng.randint(0, 1)
+                    elif style == "partinbred":    # homozygous at some loci (own code), heterozygous at others
+                        v = 2 * t + p - 128
+                    elif style == "wide":          # (taxon, copy) written in base 256 over the markers (ntaxa > 127)
+                        v = ((2 * t + p) // (256 ** (j % 2))) % 256 - 128
                     else:
                         v = rng.choice([-128, 127, -1, 0, 1, rng.randint(-128, 127)])
                     g[p][t][j] = v
+        if style == "partinbred":
+            for t in range(ntaxa):
+                run = rng.random() < 0.5
+                for j in range(nv):
+                    if rng.random() < 0.35:
+                        run = not run
+                    if run:
+                        g[1][t][j] = g[0][t][j]
         return g
 
     @staticmethod
-    def _xo(rng, nv, den):
+    def _xo(rng, nv, den, tiny=False):
         style = rng.random()
         out = []
         for j in range(nv):
+            if tiny:       # magnitudes at which isclose / eps / clip style rewrites change the verdict of r < xoprob
+                v = rng.choice([Fraction(0), Fraction(0), Fraction(1, 2 ** 52), Fraction(1, 2 ** 30), Fraction(1, 2 ** 27),
+                                Fraction(1, 2 ** 17), Fraction(1, 2), Fraction(1), Fraction(1) - Fraction(1, 2 ** 53)])
+                out.append(v)
+                continue
             if style < 0.1:
                 v = Fraction(0)
             elif style < 0.2:
@@ -297,19 +401,23 @@ class C01(Prop):
             out.append(v)
         return out
 
-    def _case(self, rng, proto=None, tier="quick"):
+    def _case(self, rng, proto=None, tier="quick", plain=False):
         proto = proto or rng.choice(list(PROTOS))
         npar = PROTOS[proto][1]
-        mode = rng.choice(["scripted", "scripted", "pcg64", "mt19937", "randomstate"])
+        mode = rng.choice(["scripted", "scripted", "scripted_rs", "pcg64", "mt19937", "randomstate"])
         big = tier == "thorough" and rng.random() < 0.3
         ntaxa = rng.choice([1, 2, 3, 4, 5, 6, 8] + ([12] if big else []))
-        nv = rng.choice(([1, 2, 3, 5, 8, 12, 24] + ([30] if big else [])) if mode == "scripted" else [1, 2, 4, 6, 9])
-        gs = rng.choice(["copy", "copy", "cell", "biallelic", "int8"])
+        nv = rng.choice(([1, 2, 3, 5, 8, 12, 24] + ([30] if big else [])) if mode.startswith("scripted") else [1, 2, 4, 6, 9])
+        nself = rng.choice([0, 0, 0, 1, 1, 2, 3])
+        if nself in (1, 2) and proto in ("4w", "4wdh", "3wdh"):
+            nv = min(nv, 8 if nself == 1 else 5)              # joint pedigree test: 2^9 .. 2^11 hidden states per marker
+        gs = rng.choice(["copy", "copy", "cell", "biallelic", "int8", "partinbred"])
         if gs == "cell" and 2 * ntaxa * nv > 256:
             gs = "copy"
-        den = 64
+        tiny = mode.startswith("scripted") and rng.random() < 0.25
+        den = TWO53 if tiny else 64
         geno = self._geno(rng, ntaxa, nv, gs)
-        xo = self._xo(rng, nv, den)
+        xo = self._xo(rng, nv, den, tiny)
         ncross = rng.choice([0, 1, 1, 2, 2, 3, 4] + ([5, 6] if big else []))
         xc = []
         for _ in range(ncross):
@@ -323,7 +431,8 @@ class C01(Prop):
             else:
                 row = [rng.randrange(ntaxa) for _ in range(npar)]
             xc.append(row)
-        if rng.random() < 0.2:                                       # numpy index rule: -k names taxon ntaxa-k
+        neg = rng.random() < 0.2
+        if neg:                                                      # numpy index rule: -k names taxon ntaxa-k
             xc = [[v - ntaxa if rng.random() < 0.5 else v for v in row] for row in xc]
 
         def cnt(hi):
@@ -331,7 +440,6 @@ class C01(Prop):
                 return rng.randint(0 if rng.random() < 0.1 else 1, hi)
             return [rng.randint(0 if rng.random() < 0.2 else 1, hi) for _ in range(ncross)]
         nmating, nprogeny = cnt(4 if big else 3), cnt(4 if big else 3)
-        nself = rng.choice([0, 0, 0, 1, 1, 2, 3])
         r = rng.random()
         if r < 0.7:
             pc = rng.randint(0, 60)
@@ -339,21 +447,207 @@ class C01(Prop):
             pc = 10 ** 7 - rng.randint(0, 12)
         else:
             pc = rng.choice([10 ** 7 + rng.randint(0, 5), 99999995, 123456789])
-        fc = rng.choice([0, 0, 1, 7, 98, 10 ** 6])
+        fc = rng.choice([0, 0, 1, 7, 98, 126, 254, 10 ** 6])
         spec = {"mode": mode, "seed": rng.randrange(2 ** 31)}
-        if mode == "scripted":
+        if mode.startswith("scripted"):
             spec["den"] = den
         meta = rng.choice(["full"] * 7 + ["none", "none", "alleles"])
-        return self._mk(proto, geno, xo, xc, nmating, nprogeny, nself, pc, fc, spec, meta)
+        c = self._mk(proto, geno, xo, xc, nmating, nprogeny, nself, pc, fc, spec, meta)
+        if not plain and rng.random() < 0.4:
+            self._options(rng, c, neg)
+        return c
+
+    @staticmethod
+    def _options(rng, c, neg):
+        """rarely used argument forms: index / count dtypes, memory layouts, numpy scalars, miscout, rng=None,
+        parents without names"""
+        if rng.random() < 0.6:
+            c["xdtype"] = rng.choice(["int8", "int16", "int32"] + ([] if neg else ["uint8", "uint16", "uint32", "uint64"]))
+        if rng.random() < 0.5:
+            c["xorder"] = rng.choice(["F", "F", "view", "rev"])
+        if rng.random() < 0.5:
+            c["cdtype"] = rng.choice(["int8", "uint8", "int16", "int32", "uint32", "int64"])
+        if rng.random() < 0.35:
+            c["gorder"] = rng.choice(["F", "F", "view", "rev"])
+        if rng.random() < 0.2:
+            c["nself_np"] = True
+        if rng.random() < 0.2:
+            c["miscout"] = True
+        if rng.random() < 0.15:
+            c["rng_none"] = True
+        if rng.random() < 0.15:
+            c["bare_taxa"] = True
+
+    def _narrow_case(self, rng, proto=None, force=None):
+        """xconfig stored in a narrow integer dtype and more matings / progeny / candidate taxa than that dtype
+        can count: positional index arrays built `like` the parental selections wrap around (int8: 128 -> -128,
+        uint8: 256 -> 0).  The rows past the limit belong to the LAST cross and a wrapped index lands in the FIRST
+        cross; the two have disjoint parents with distinct allele codes, so a wrapped row shows foreign alleles."""
+        proto = proto or rng.choice(list(PROTOS))
+        npar = PROTOS[proto][1]
+        xdtype, lim = rng.choice([("int8", 127), ("int8", 127), ("uint8", 255), ("uint8", 255), ("int16", 127)])
+        if force:
+            xdtype, lim = force
+        ntaxa = 8
+        nv = rng.choice([1, 1, 2, 3])
+        geno = self._geno(rng, ntaxa, nv, "copy")
+        xo = [Fraction(1, 2)] + [rng.choice([Fraction(0), Fraction(1, 4), Fraction(1, 2)]) for _ in range(nv - 1)]
+        ncross = rng.choice([2, 3, 4, 5])
+        first = list(range(npar))
+        last = list(range(npar, 2 * npar)) if 2 * npar <= ntaxa else [ntaxa - 1 - k for k in range(npar)]
+        if npar == 1:
+            first, last = [0], [ntaxa - 1]
+        xc = [first] + [rng.sample(range(ntaxa), npar) for _ in range(ncross - 2)] + [last]
+        target = lim + rng.randint(6, 30)                     # total number of matings: past the limit
+        over = target - lim
+        base = target // ncross
+        nmating = [base] * ncross
+        nmating[-1] += target - base * ncross
+        if rng.random() < 0.5 and ncross > 2:                 # unequal entries (first and last cross stay large)
+            d = rng.randint(1, base - 1)
+            nmating[1] -= d
+            nmating[0 if rng.random() < 0.5 else -1] += d
+        assert nmating[-1] >= over and nmating[0] >= over + 1
+        nprogeny = rng.choice([1, 1, [rng.randint(1, 2) for _ in range(ncross)]])
+        if proto in ("self", "2w"):                           # one meiosis pair per progeny: matings x progeny rows
+            nself = rng.choice([1, 1, 2])
+        else:
+            nself = rng.choice([0, 0, 1])
+        spec = {"mode": rng.choice(["scripted", "pcg64", "randomstate"]), "seed": rng.randrange(2 ** 31), "den": 64}
+        c = self._mk(proto, geno, xo, xc, nmating, nprogeny, nself, rng.randint(0, 50), rng.choice([0, 3]), spec,
+                     rng.choice(["full", "none"]))
+        c["xdtype"] = xdtype
+        if rng.random() < 0.3:
+            c["cdtype"] = rng.choice(["int16", "int32", "uint16"])
+        return c
+
+    def _wide_case(self, rng, proto=None):
+        """more candidate taxa than an int8 / uint8 index can address; parents taken from both ends"""
+        proto = proto or rng.choice(list(PROTOS))
+        npar = PROTOS[proto][1]
+        ntaxa = rng.choice([129, 130, 200, 257, 300])
+        nv = rng.choice([2, 3, 4])
+        geno = self._geno(rng, ntaxa, nv, "wide")
+        xo = [Fraction(1, 2)] + [Fraction(0)] * (nv - 1)       # whole haplotypes: the (taxon, copy) code stays readable
+        if rng.random() < 0.3:
+            xo[-1] = Fraction(1, 4)
+        hi = [t for t in range(ntaxa) if t >= 128]
+        ncross = rng.choice([1, 2, 3])
+        xc = []
+        for _ in range(ncross):
+            row = [rng.choice(hi) if rng.random() < 0.7 else rng.randrange(ntaxa) for _ in range(npar)]
+            if rng.random() < 0.3:
+                row = [v - ntaxa if rng.random() < 0.5 else v for v in row]
+            xc.append(row)
+        spec = {"mode": rng.choice(["scripted", "pcg64"]), "seed": rng.randrange(2 ** 31), "den": 64}
+        c = self._mk(proto, geno, xo, xc, rng.choice([1, 2]), rng.choice([1, 2, [rng.randint(1, 2) for _ in range(ncross)]]),
+                     rng.choice([0, 0, 1]), rng.randint(0, 50), 0, spec, "none")
+        if rng.random() < 0.5:
+            c["xdtype"] = rng.choice(["int16", "int32", "uint16"] if all(v >= 0 for r in xc for v in r) else ["int16", "int32"])
+        return c
+
+    def _long_case(self, rng, proto=None, nv=None):
+        """more markers than a column-chunked rewrite of the copy loop handles in one block (1024 / 4096)"""
+        proto = proto or rng.choice(["2w", "self", "2wdh", "3w"])
+        npar = PROTOS[proto][1]
+        nv = nv or rng.choice([1025, 1030, 2050])
+        ntaxa = 3
+        geno = self._geno(rng, ntaxa, nv, "copy")
+        # sparse crossovers: probability 1/2 at a few markers next to (never at) the multiples of 64 where a block
+        # of a chunked rewrite could start, 0 elsewhere: a phase that restarts at a block start is an illegal switch
+        hot = {0, 3, 1023, 1025, nv - 1, 4095, 4097} | {rng.randrange(nv) | 1 for _ in range(6)}
+        xo = [Fraction(1, 2) if (j in hot and (j % 64 or j == 0)) else Fraction(0) for j in range(nv)]
+        xc = [rng.sample(range(ntaxa), npar) if npar <= ntaxa else [rng.randrange(ntaxa) for _ in range(npar)]]
+        spec = {"mode": "pcg64", "seed": rng.randrange(2 ** 31)}
+        return self._mk(proto, geno, xo, xc, 1, rng.choice([2, 3]), rng.choice([0, 1]), 0, 0, spec, "none")
+
+    @staticmethod
+    def _count(st):
+        n = len(st["xconfig"])
+        nm = st["nmating"] if isinstance(st["nmating"], list) else [st["nmating"]] * n
+        npg = st["nprogeny"] if isinstance(st["nprogeny"], list) else [st["nprogeny"]] * n
+        return sum(a * b for a, b in zip(nm, npg))
+
+    def _hist_case(self, rng, proto=None):
+        """two or three mate() calls on one protocol object, with the parental matrix replaced / kept / edited in
+        place between the calls (same shapes, different content: whatever the object remembers is stale)"""
+        proto = proto or rng.choice(list(PROTOS))
+        npar = PROTOS[proto][1]
+        first = self._case(rng, proto, plain=True)
+        while not first["xconfig"]:
+            first = self._case(rng, proto, plain=True)
+        ntaxa, nv = len(first["geno"][0]), len(first["xo"])
+        den = first["rng"].get("den", 64)
+        steps = []
+        for k in range(rng.choice([2, 2, 3])):
+            if k == 0:
+                st = {f: first[f] for f in ("geno", "xo", "xconfig", "nmating", "nprogeny", "nself", "meta")}
+            else:
+                prev = steps[-1]
+                pcount = self._count(prev)
+                how = rng.choice(["new", "same", "inplace", "inplace"] + (["chain", "chain"] if pcount >= 1 else []))
+                st = dict(prev)
+                st["reuse"] = how
+                st.pop("xreuse", None)
+                if how == "chain":
+                    # the progeny of the previous call are the parents of this one (recurrent use of mate());
+                    # the model is given the genotypes the previous call actually returned
+                    nc = rng.choice([1, 2, 2, 3])
+                    st["geno"] = None
+                    st["xconfig"] = [[rng.randrange(pcount) for _ in range(npar)] for _ in range(nc)]
+                    st["nmating"] = rng.choice([rng.randint(1, 2), [rng.randint(1, 2) for _ in range(nc)]])
+                    st["nprogeny"] = rng.choice([rng.randint(1, 2), [rng.randint(1, 2) for _ in range(nc)]])
+                    st["nself"] = rng.choice([0, 0, 1])
+                    steps.append(st)
+                    ntaxa = pcount
+                    continue
+                if prev.get("reuse") == "chain" and how in ("same", "inplace"):
+                    st["reuse"] = how = "new"
+                if st["geno"] is None or len(st["geno"][0]) != ntaxa:
+                    ntaxa = rng.choice([2, 3, 4, 5])
+                    st["geno"] = self._geno(rng, ntaxa, nv, "copy")
+                if how != "same":
+                    gs = rng.choice(["copy", "partinbred", "int8"])
+                    st["geno"] = self._geno(rng, ntaxa, nv, gs)
+                    if gs == "copy":                            # same codes, other taxa: a stale matrix shows
+                        perm = list(range(ntaxa))
+                        rng.shuffle(perm)
+                        st["geno"] = [[ph[t] for t in perm] for ph in st["geno"]]
+                    # crossover probabilities move: zero where they were positive and vice versa
+                    st["xo"] = canon.enc([Fraction(0) if (_fr(v) > 0 and rng.random() < 0.6) else
+                                          (Fraction(1, 2) if rng.random() < 0.5 else _fr(v)) for v in prev["xo"]])
+                    st["xo_assign"] = rng.random() < 0.5
+                r = rng.random()
+                if r < 0.6 or prev.get("reuse") == "chain":     # same shape, other parents
+                    st["xconfig"] = [[rng.randrange(ntaxa) for _ in range(npar)] for _ in prev["xconfig"]]
+                    st["xreuse"] = rng.random() < 0.5
+                    if isinstance(prev["nmating"], list) and rng.random() < 0.5:
+                        st["nmating"] = [rng.randint(1, 3) for _ in prev["xconfig"]]
+                    if rng.random() < 0.3:
+                        st["nprogeny"] = rng.randint(1, 3)
+                elif r < 0.8:                                   # another number of crosses
+                    nc = rng.choice([1, 2, 3])
+                    st["xconfig"] = [[rng.randrange(ntaxa) for _ in range(npar)] for _ in range(nc)]
+                    st["nmating"] = rng.choice([rng.randint(1, 2), [rng.randint(1, 2) for _ in range(nc)]])
+                    st["nprogeny"] = rng.choice([rng.randint(1, 2), [rng.randint(1, 2) for _ in range(nc)]])
+                if rng.random() < 0.3:
+                    st["nself"] = rng.choice([0, 1, 2])
+            steps.append(st)
+        c = {"kind": "hist", "proto": proto, "steps": steps, "pc": first["pc"], "fc": first["fc"], "rng": first["rng"]}
+        if rng.random() < 0.15:
+            c["rng_none"] = True
+        return c
 
     def _bad_case(self, rng):
-        c = self._case(rng)
+        c = self._case(rng, plain=True)
         while not c["xconfig"]:
-            c = self._case(rng)
+            c = self._case(rng, plain=True)
         ntaxa = len(c["geno"][0])
         k = rng.randrange(3)
         c = dict(c)
         c["expect_error"] = True
+        if rng.random() < 0.3:
+            c["xdtype"] = rng.choice(["int8", "int16", "int32"])
         if k == 0:                                      # selection index outside the matrix
             c["xconfig"] = [list(r) for r in c["xconfig"]]
             c["xconfig"][rng.randrange(len(c["xconfig"]))][rng.randrange(len(c["xconfig"][0]))] = \
@@ -372,10 +666,19 @@ class C01(Prop):
         den = 64
         fn = rng.choice(["meiosis", "dh", "mate"])
         c = {"kind": "util", "fn": fn, "module": rng.choice(["util", "core"]),
-             "geno": self._geno(rng, ntaxa, nv, rng.choice(["copy", "cell" if 2 * ntaxa * nv <= 256 else "copy", "int8"])),
+             "geno": self._geno(rng, ntaxa, nv, rng.choice(["copy", "cell" if 2 * ntaxa * nv <= 256 else "copy", "int8",
+                                                             "partinbred", "partinbred", "biallelic"])),
              "xo": canon.enc(self._xo(rng, nv, den)),
              "sel": [rng.randrange(ntaxa) for _ in range(rng.randint(0, 5))],
-             "rng": {"mode": rng.choice(["scripted", "pcg64", "randomstate"]), "seed": rng.randrange(2 ** 31), "den": den}}
+             "rng": {"mode": rng.choice(["scripted", "scripted_rs", "pcg64", "randomstate"]), "seed": rng.randrange(2 ** 31),
+                     "den": den}}
+        if rng.random() < 0.3:
+            c["sdtype"] = rng.choice(["int8", "int16", "int32", "uint8", "uint32"])
+        if rng.random() < 0.2 and c["sel"]:
+            c["sel"] = [v - ntaxa if rng.random() < 0.5 else v for v in c["sel"]]        # from-the-end indices
+            c["sdtype"] = rng.choice(["int8", "int64"])
+        if rng.random() < 0.25:
+            c["gorder"] = rng.choice(["F", "view", "rev"])
         if fn == "mate":
             mt = rng.randint(1, 4)
             c["mgeno"] = self._geno(rng, mt, nv, "int8")
@@ -384,7 +687,13 @@ class C01(Prop):
 
     @staticmethod
     def _np_case(rng):
-        fn = rng.choice(["repeat", "lexsort", "zfill"])
+        fn = rng.choice(["repeat", "lexsort", "zfill", "mulwrap"])
+        if fn == "mulwrap":
+            dt = rng.choice(["int8", "uint8", "int16", "uint16"])
+            n = rng.randint(1, 5)
+            hi = 127 if dt == "int8" else 255 if dt == "uint8" else 400
+            return {"kind": "np", "fn": fn, "dtype": dt, "bits": 8 if dt.endswith("8") else 16, "signed": not dt.startswith("u"),
+                    "a": [rng.randint(0, hi) for _ in range(n)], "b": [rng.randint(0, hi) for _ in range(n)]}
         if fn == "repeat":
             n = rng.randint(0, 6)
             return {"kind": "np", "fn": fn, "counts": [rng.randint(0, 3) for _ in range(n)],
@@ -436,8 +745,83 @@ class C01(Prop):
         # negative indices (numpy counts from the end) and an index below -ntaxa that is never used
         out.append(self._mk("3w", g4, xo6, [[-1, 0, -3], [2, -4, 1]], [1, 2], [2, 1], 1, 0, 0, sc(40)))
         out.append(self._mk("4wdh", g4, xo6, [[-1, -2, -3, -4], [0, 1, 2, -9]], [1, 0], [2, 3], 2, 0, 0, sc(41)))
+        # --- round 3: classes of inputs the earlier generator never reached
+        # (a) narrow index dtypes with more matings / rows than the dtype counts (all protocols), uint8 past 255
+        for i, k in enumerate(PROTOS):
+            out.append(self._narrow_case(random.Random(300 + i), k, ("int8", 127)))
+        for i, k in enumerate(PROTOS):
+            out.append(self._narrow_case(random.Random(310 + i), k, ("uint8", 255)))
+        # (b) more candidate taxa than int8 / uint8 address
+        out.append(self._wide_case(random.Random(320), "2w"))
+        out.append(self._wide_case(random.Random(321), "4wdh"))
+        out.append(self._wide_case(random.Random(322), "3w"))
+        gw = self._geno(random.Random(324), 260, 3, "wide")
+        out.append(self._mk("self", gw, [half, 0, 0], [[200], [130], [259]], [1, 2, 1], 2, 1, 0, 0, sc(324), meta="none"))
+        # (c) more markers than one column block
+        out.append(self._long_case(random.Random(330), "2w", 1030))
+        out.append(self._long_case(random.Random(331), "2wdh", 1025))
+        #     more markers than an int16 index counts (utilities only: the per-copy mosaic oracle is linear in markers)
+        nv_ = 33000
+        hot_ = {0, 100, 32767, 32769, 32999}
+        for mod_ in ("util", "core"):
+            out.append({"kind": "util", "fn": "meiosis", "module": mod_,
+                        "geno": [[[((j * 7) % 100) - 128 for j in range(nv_)]], [[((j * 11) % 100) for j in range(nv_)]]],
+                        "xo": canon.enc([half if j in hot_ else 0 for j in range(nv_)]), "sel": [0, 0],
+                        "rng": {"mode": "pcg64", "seed": 336}})
+        # (c') more crosses than 1024 (per-cross arrays with unequal entries, zeros included)
+        for i, k in enumerate(["2wdh", "3w"]):
+            r_ = random.Random(335 + i)
+            nc_ = 1030
+            out.append(self._mk(k, self._geno(r_, 5, 1, "copy"), [half],
+                                [[r_.randrange(5) for _ in range(PROTOS[k][1])] for _ in range(nc_)],
+                                [r_.choice([1, 1, 1, 2, 0]) for _ in range(nc_)], [r_.choice([1, 1, 2]) for _ in range(nc_)],
+                                0, 0, 0, {"mode": "pcg64", "seed": 335 + i}, meta="none"))
+        # (d) tiny crossover probabilities and tiny / zero draws (den 2^53), Generator and RandomState
+        for i, (k, mode) in enumerate([("2w", "scripted"), ("3wdh", "scripted_rs"), ("self", "scripted"), ("4w", "scripted")]):
+            r_ = random.Random(340 + i)
+            nv_ = 8
+            out.append(self._mk(k, self._geno(r_, 4, nv_, "cell"), self._xo(r_, nv_, TWO53, True),
+                                [list(range(PROTOS[k][1])), [3, 2, 1, 0][:PROTOS[k][1]]], 2, [1, 2], i % 2, 0, 0,
+                                {"mode": mode, "seed": 340 + i, "den": TWO53}))
+        # (e) histories on one protocol object
+        for i, k in enumerate(PROTOS):
+            out.append(self._hist_case(random.Random(360 + i), k))
+        #     crossover probabilities that move between two calls on one object (every draw = 1/4: crossover at every
+        #     marker while xoprob = 1/2, none at all once xoprob = 0), same parents object edited in place
+        g44 = self._geno(random.Random(2), 4, 4, "cell")
+        for k in ("3w", "2wdh"):
+            xc_ = [list(range(PROTOS[k][1])), [3, 2, 1, 0][:PROTOS[k][1]]]
+            st0 = {"geno": g44, "xo": canon.enc([half] * 4), "xconfig": xc_, "nmating": 1, "nprogeny": 2, "nself": 0, "meta": "full"}
+            st1 = dict(st0, xo=canon.enc([0] * 4), reuse="inplace", xo_assign=True)
+            st2 = dict(st0, xo=canon.enc([0, half, 0, half]), reuse="inplace", xo_assign=False)
+            out.append({"kind": "hist", "proto": k, "steps": [st0, st1, st2], "pc": 0, "fc": 0,
+                        "rng": {"mode": "const", "den": 64, "vals": [16]}})
+        # finding D70: nmating * nprogeny formed in a narrow count dtype (self / two-way / three-way); the DH protocols,
+        # which never form the product, take the same counts correctly
+        for k, cd, nm_, np_ in (("self", "uint8", [20], [13]), ("2w", "int8", [16], [16]), ("2w", "int8", [12], [11]),
+                                ("3w", "uint8", [20], [13]), ("self", "int16", [200, 1], [200, 2]),
+                                ("2wdh", "uint8", [20], [13]), ("3wdh", "int8", [16], [16])):
+            c_ = self._mk(k, g4, xo6, [list(range(PROTOS[k][1]))] * len(nm_), nm_, np_, 0, 0, 0,
+                          {"mode": "pcg64", "seed": 70}, meta="none")
+            c_["cdtype"] = cd
+            out.append(c_)
+        # (f) rarely used argument forms, one per protocol
+        for i, k in enumerate(list(PROTOS) * 2):
+            c_ = self._mk(k, g4, xo6, [list(range(PROTOS[k][1])), [3, 3, 1, 0][:PROTOS[k][1]]], [2, 1], [1, 2], i % 3, 4, 1,
+                          sc(380 + i))
+            c_.update([("xdtype", ["int8", "uint8", "int16", "uint16", "int32", "uint32", "uint64"][i % 7]),
+                       ("xorder", ["F", "view", "F", "rev", "F", "view", "rev", "rev", "F", "view", "F", "view", "F", "F"][i]),
+                       ("cdtype", ["int8", "uint8", "int16", "int32", "uint32", "int64", "int8"][(i + i // 7) % 7]),
+                       ("gorder", ["view", "F", "rev", "C", "F"][(i + 2 * (i // 7)) % 5]),
+                       ("nself_np", i % 2 == 0), ("miscout", i % 2 == 1), ("rng_none", i % 3 == 0), ("bare_taxa", i % 3 == 1)])
+            out.append(c_)
         out.append({"kind": "util", "fn": "meiosis", "module": "core", "geno": g4, "xo": canon.enc(xo6),
                     "sel": [3, 0, 0], "rng": sc(30)})
+        out.append({"kind": "util", "fn": "dh", "module": "core", "geno": g4, "xo": canon.enc(xo6),
+                    "sel": [1, 2, 0], "rng": sc(33)})
+        out.append({"kind": "util", "fn": "mate", "module": "core", "geno": self._geno(random.Random(3), 3, 6, "partinbred"),
+                    "xo": canon.enc(xo6), "sel": [-1, 0, -3], "sdtype": "int8", "gorder": "view",
+                    "mgeno": self._geno(random.Random(4), 2, 6, "partinbred"), "msel": [1, 0, 1], "rng": sc(32)})
         out.append({"kind": "util", "fn": "dh", "module": "util", "geno": g4, "xo": canon.enc(xo6),
                     "sel": [1, 2], "rng": sc(31)})
         return out
@@ -472,20 +856,33 @@ class C01(Prop):
         protos = list(PROTOS)
         for i in range(n):
             r = rng.random()
-            if r < 0.06:
+            pr = protos[i % len(protos)]
+            if r < 0.05:
                 out.append(self._bad_case(rng))
-            elif r < 0.16:
+            elif r < 0.14:
                 out.append(self._util_case(rng))
-            elif r < 0.20:
+            elif r < 0.17:
                 out.append(self._np_case(rng))
+            elif r < 0.30:
+                out.append(self._hist_case(rng, pr))
+            elif r < 0.33:
+                out.append(self._narrow_case(rng, pr))
+            elif r < 0.36:
+                out.append(self._wide_case(rng, pr))
+            elif r < 0.365:
+                out.append(self._long_case(rng))
             else:
-                out.append(self._case(rng, protos[i % len(protos)], tier))
+                out.append(self._case(rng, pr, tier))
         return out
 
     # ------------------------------------------------------------------ implementation
     def run_impl(self, case):
         mods = _mods()
         if case["kind"] == "np":
+            if case["fn"] == "mulwrap":
+                with numpy.errstate(all="ignore"):
+                    return {"res": [int(v) for v in numpy.array(case["a"], dtype=case["dtype"])
+                                    * numpy.array(case["b"], dtype=case["dtype"])]}
             if case["fn"] == "repeat":
                 return {"res": [int(v) for v in numpy.repeat(numpy.array(case["vals"], dtype="int64"),
                                                               numpy.array(case["counts"], dtype="int64"))]}
@@ -496,55 +893,162 @@ class C01(Prop):
             return {"res": [str(n).zfill(7) for n in case["ns"]]}
         if case["kind"] == "util":
             return self._run_util(case, mods)
+        if case["kind"] == "hist":
+            return self._run_hist(case, mods)
         modname, cls = mods[case["kind"]]
         g, xo = _build_pgmat(case)
+        hold = {"xo": [_fr(v) for v in case["xo"]]}
+        rng, den = _make_rng(case["rng"], hold)
+        with self._protocol(modname, cls, case, rng) as prot:
+            obs, _ = self._call_mate(prot, g, case, rng, den)
+        return obs
+
+    @staticmethod
+    @contextlib.contextmanager
+    def _protocol(modname, cls, case, rng):
+        """the protocol object; with `rng_none` it is built with rng=None and must pick up the module's
+        `global_prng` (which is the recording generator for the duration of the case)"""
+        if case.get("rng_none"):
+            old = modname.global_prng
+            modname.global_prng = rng
+            try:
+                yield cls(progeny_counter=case["pc"], family_counter=case["fc"], rng=None)
+            finally:
+                modname.global_prng = old
+        else:
+            yield cls(progeny_counter=case["pc"], family_counter=case["fc"], rng=rng)
+
+    @staticmethod
+    def _xconfig(step, npar):
+        xcl = step["xconfig"]
+        xc = numpy.array(xcl, dtype=step.get("xdtype", "int64")).reshape(len(xcl), len(xcl[0]) if xcl else npar)
+        return _layout(xc, step.get("xorder", "C"))
+
+    def _call_mate(self, prot, g, step, rng, den, xc=None):
+        """one `mate()` call on protocol object `prot`; -> (observation, progeny matrix object)"""
         snap = _snapshot(g)
         meta_in = _meta_json(g)
-        rng, den = _make_rng(case["rng"], [_fr(v) for v in case["xo"]])
-        prot = cls(progeny_counter=case["pc"], family_counter=case["fc"], rng=rng)
-        npar = PROTOS[case["kind"]][1]
-        xc = numpy.array(case["xconfig"], dtype="int64").reshape(len(case["xconfig"]),
-                                                                   len(case["xconfig"][0]) if case["xconfig"] else npar)
-        nm = case["nmating"] if isinstance(case["nmating"], int) else numpy.array(case["nmating"], dtype="int64")
-        npg = case["nprogeny"] if isinstance(case["nprogeny"], int) else numpy.array(case["nprogeny"], dtype="int64")
+        npar = PROTOS[step["kind"]][1]
+        if xc is None:
+            xc = self._xconfig(step, npar)
+        xc0 = xc.copy()
+        nm = _counts(step["nmating"], step.get("cdtype"))
+        npg = _counts(step["nprogeny"], step.get("cdtype"))
+        cnt0 = [copy.deepcopy(nm), copy.deepcopy(npg)]
+        nself = numpy.int64(step["nself"]) if step.get("nself_np") else step["nself"]
+        kw = {"miscout": {}} if step.get("miscout") else {}
+        pc0, fc0 = int(prot.progeny_counter), int(prot.family_counter)
+        k0, c0 = len(rng.log), len(rng.calls)
         try:
-            out = prot.mate(g, xc, nm, npg, nself=case["nself"])
+            out = prot.mate(g, xc, nm, npg, nself=nself, **kw)
         except Exception as e:
-            if case.get("expect_error"):
-                return {"error": canon.exc_tag(e), "text": f"{type(e).__name__}: {e}"[:200]}
+            if step.get("expect_error"):
+                return {"error": canon.exc_tag(e), "text": f"{type(e).__name__}: {e}"[:200]}, None
             raise
         after = _snapshot(g)
         untouched = [k for k in snap if not _same(snap[k], after[k])]
         lost = [f for f in VRNT_FIELDS if not _same(snap[f], getattr(out, f))]
-        bad_calls = [c for c in rng.calls if c[0] != 0.0 or c[1] != 1.0]
+        log, calls = rng.log[k0:], rng.calls[c0:]
+        bad_calls = [c for c in calls if c[0] != 0.0 or c[1] != 1.0]
+        args_changed = [n for n, a_, b_ in (("xconfig", xc0, xc), ("nmating", cnt0[0], nm), ("nprogeny", cnt0[1], npg))
+                        if not _same(a_, b_)]
+        # aliasing: writing into the progeny matrix must not reach the parents, and vice versa
+        alias = []
+        omat = out.mat.copy()
+        if out.mat.size and g.mat.size:
+            try:
+                if out.mat.flags.writeable:
+                    out.mat[...] = numpy.int8(55)
+                    if not _same(g.mat, snap["mat"]):
+                        alias.append("progeny_write_reaches_parents")
+                    out.mat[...] = omat
+                g.mat[...] = numpy.int8(-66)
+                if not _same(out.mat, omat):
+                    alias.append("parent_write_reaches_progeny")
+            finally:
+                g.mat[...] = snap["mat"]
         return {
-            "mat": out.mat.astype(int).tolist(), "dtype": str(out.mat.dtype),
+            "mat": omat.astype(int).tolist(), "dtype": str(out.mat.dtype),
             "taxa": [str(t) for t in out.taxa], "taxa_grp": [int(v) for v in out.taxa_grp],
+            "pc0": pc0, "fc0": fc0,
             "pc": int(prot.progeny_counter), "fc": int(prot.family_counter),
             "grp_name": [int(v) for v in out.taxa_grp_name], "grp_stix": [int(v) for v in out.taxa_grp_stix],
             "grp_spix": [int(v) for v in out.taxa_grp_spix], "grp_len": [int(v) for v in out.taxa_grp_len],
-            "draws": _draws_json(rng.log, den), "dden": den,
-            "shapes": [list(m.shape) for m in rng.log], "bad_calls": bad_calls,
-            "parents_changed": untouched, "meta_lost": lost,
+            "draws": _draws_json(log, den), "dden": den,
+            "shapes": [list(m.shape) for m in log], "bad_calls": bad_calls,
+            "parents_changed": untouched + alias, "meta_lost": lost, "args_changed": args_changed,
             "meta_in": meta_in, "meta": _meta_json(out),
-        }
+        }, out
+
+    def _run_hist(self, case, mods):
+        """several `mate()` calls on ONE protocol object (counters, generator and any state the object keeps
+        are shared): between calls the parental matrix is replaced, kept, or edited in place (genotypes
+        overwritten, vrnt_xoprob re-assigned or overwritten), the xconfig array object may be re-used after an
+        in-place edit.  At the end every earlier result must still be what it was when it was returned."""
+        modname, cls = mods[case["proto"]]
+        steps = case["steps"]
+        hold = {"xo": [_fr(v) for v in steps[0]["xo"]]}
+        rng, den = _make_rng(case["rng"], hold)
+        obs_all, keep = [], []
+        g = None
+        xc = None
+        with self._protocol(modname, cls, dict(case, pc=case["pc"], fc=case["fc"]), rng) as prot:
+            for st in steps:
+                st = dict(st, kind=case["proto"])
+                hold["xo"] = [_fr(v) for v in st["xo"]]
+                how = st.get("reuse", "new")
+                if how == "chain":
+                    g = keep[-1][1]                              # the object the previous call returned
+                    st = dict(st, geno=g.mat.astype(int).tolist())
+                elif g is None or how == "new":
+                    g, _ = _build_pgmat(st)
+                elif how == "inplace":
+                    g.mat[...] = numpy.array(st["geno"], dtype="int8")
+                    xo = numpy.array([float(_fr(v)) for v in st["xo"]], dtype=float)
+                    if st.get("xo_assign", True):
+                        g.vrnt_xoprob = xo
+                    else:
+                        g.vrnt_xoprob[...] = xo
+                npar = PROTOS[case["proto"]][1]
+                if xc is not None and st.get("xreuse") and xc.shape == (len(st["xconfig"]), npar) and st["xconfig"]:
+                    xc[...] = numpy.array(st["xconfig"], dtype=xc.dtype)
+                else:
+                    xc = self._xconfig(st, npar)
+                o, out = self._call_mate(prot, g, st, rng, den, xc=xc)
+                if how == "chain":
+                    o["geno_used"] = st["geno"]
+                obs_all.append(o)
+                if out is not None:
+                    keep.append((len(obs_all) - 1, out, out.mat.copy(), [str(t) for t in out.taxa],
+                                 [int(v) for v in out.taxa_grp]))
+        stale = []
+        for k, out, mat, taxa, grp in keep:
+            if not _same(out.mat, mat) or [str(t) for t in out.taxa] != taxa or [int(v) for v in out.taxa_grp] != grp:
+                stale.append(k)
+        return {"steps": obs_all, "stale": stale}
 
     def _run_util(self, case, mods):
         mod = mods[case["module"]]
         names = {"util": ("mat_meiosis", "mat_dh", "mat_mate"), "core": ("dense_meiosis", "dense_dh", "dense_cross")}[case["module"]]
         fn = getattr(mod, names[["meiosis", "dh", "mate"].index(case["fn"])])
-        geno = numpy.array(case["geno"], dtype="int8")
+        geno = _layout(numpy.array(case["geno"], dtype="int8"), case.get("gorder", "C"))
         g0 = geno.copy()
         xo = numpy.array([float(_fr(v)) for v in case["xo"]])
-        sel = numpy.array(case["sel"], dtype="int64")
+        sdt = case.get("sdtype", "int64")
+        sel = numpy.array(case["sel"], dtype=sdt)
         rng, den = _make_rng(case["rng"], [_fr(v) for v in case["xo"]])
         if case["fn"] == "mate":
             mg = numpy.array(case["mgeno"], dtype="int8")
-            res = fn(geno, mg, sel, numpy.array(case["msel"], dtype="int64"), xo, rng)
+            res = fn(geno, mg, sel, numpy.array(case["msel"], dtype=sdt), xo, rng)
         else:
             res = fn(geno, sel, xo, rng)
-        return {"res": res.astype(int).tolist(), "draws": _draws_json(rng.log, den), "dden": den,
-                "untouched": bool((g0 == geno).all()), "dtype": str(res.dtype)}
+        out = res.astype(int).tolist()
+        untouched = bool((g0 == geno).all())
+        if res.size and geno.size and res.flags.writeable:   # the result must not be a view of the parents
+            res[...] = numpy.int8(55)
+            untouched = untouched and bool((g0 == geno).all())
+        return {"res": out, "draws": _draws_json(rng.log, den), "dden": den,
+                "untouched": untouched, "dtype": str(res.dtype)}
 
     # ------------------------------------------------------------------ model requests
     @staticmethod
@@ -553,15 +1057,70 @@ class C01(Prop):
                 "nmating": case["nmating"], "nprogeny": case["nprogeny"], "nself": case["nself"],
                 "pc": case["pc"], "fc": case["fc"]}
 
+    _answers = {}            # request JSON -> driver answer (the driver is a pure function of the request line)
+
     def requests(self, case, obs):
+        """requests whose answers are all known already (the self-test re-evaluates the same base cases under
+        every mutant; wherever a mutant does not change the observation the requests are identical) are
+        not sent again: their answers travel in obs["_cached"]"""
+        reqs = self._requests(case, obs)
+        keys = [json.dumps(r, sort_keys=True, separators=(",", ":")) for r in reqs]
+        if reqs and all(k in self._answers for k in keys):
+            obs["_cached"] = [self._answers[k] for k in keys]
+            return []
+        obs["_keys"] = keys
+        return reqs
+
+    def judge(self, case, obs, answers):
+        if "_cached" in obs:
+            answers = obs["_cached"]
+        elif "_keys" in obs and len(obs["_keys"]) == len(answers):
+            if len(self._answers) > 60000:
+                self._answers.clear()
+            for k, a in zip(obs.pop("_keys"), answers):
+                if "err" not in a:
+                    self._answers[k] = a
+        return self._judge(case, obs, answers)
+
+    def _requests(self, case, obs):
         if case["kind"] == "np":
-            return [{"op": "c01.np", **{k: v for k, v in case.items() if k != "kind"}}]
+            return [{"op": "c01.np", **{k: v for k, v in case.items() if k not in ("kind", "dtype")}}]
         if case["kind"] == "util":
-            r = {"op": "c01.util", "fn": case["fn"], "geno": case["geno"], "sel": case["sel"], "xo": case["xo"],
-                 "draws": obs["draws"], "dden": obs["dden"]}
+            nt = len(case["geno"][0])
+            base = {"fn": case["fn"], "geno": case["geno"], "sel": [v % nt for v in case["sel"]], "xo": case["xo"]}
             if case["fn"] == "mate":
-                r["mgeno"], r["msel"] = case["mgeno"], case["msel"]
-            return [r]
+                base["mgeno"], base["msel"] = case["mgeno"], case["msel"]
+            # module "core" is answered by the buffer-level model of core/util/mate.py (Model/DenseMate.lean)
+            return [{"op": "c01.util", **base, "module": case["module"], "garbage": len(case["sel"]) * 13 + 5,
+                     "draws": obs["draws"], "dden": obs["dden"]},
+                    {"op": "c01.spec_util", **base, "res": obs["res"]}]
+        if case["kind"] == "hist":
+            out = []
+            for st, o, (pc, fc) in zip(case["steps"], obs["steps"], self._hist_counters(case, obs)):
+                out += self._mate_requests(self._step_case(case, st, o, pc, fc), o)
+            return out
+        return self._mate_requests(case, obs)
+
+    @staticmethod
+    def _step_case(case, st, o, pc, fc):
+        stc = dict(st, kind=case["proto"], pc=pc, fc=fc)
+        if "geno_used" in o:
+            stc["geno"] = o["geno_used"]
+        return stc
+
+    @staticmethod
+    def _hist_counters(case, obs):
+        """counters each step must start from: the constructor's for the first call, then the values the
+        previous call left (which that call's own Spec ties to the numbers it produced)"""
+        pc, fc = case["pc"], case["fc"]
+        out = []
+        for o in obs["steps"]:
+            out.append((pc, fc))
+            if "error" not in o:
+                pc, fc = o["pc"], o["fc"]
+        return out
+
+    def _mate_requests(self, case, obs):
         a = self._args(case)
         if "error" in obs:
             # the draws the code would have requested are unknown: let the model fail first on the
@@ -588,7 +1147,7 @@ class C01(Prop):
         rows = {"self": [T, T], "2w": [T, T], "2wdh": [M, M], "3w": [M, M, T, T]}.get(case["kind"], [M, M, M, M])
         return [[[0] * nv for _ in range(k)] for k in rows]
 
-    def judge(self, case, obs, answers):
+    def _judge(self, case, obs, answers):
         for a in answers:
             if "err" in a:
                 raise RuntimeError("driver error: " + a["err"])
@@ -597,7 +1156,30 @@ class C01(Prop):
             return {"corr": m == obs["res"], "spec": True, "nontrivial": False, "failed": [],
                     "detail": f"numpy conformance {case['fn']}: model={m} numpy={obs['res']}"}
         if case["kind"] == "util":
-            return self._judge_util(case, obs, answers[0]["ok"])
+            return self._judge_util(case, obs, answers[0]["ok"], answers[1]["ok"])
+        if case["kind"] == "hist":
+            vs = []
+            i = 0
+            for st, o, (pc, fc) in zip(case["steps"], obs["steps"], self._hist_counters(case, obs)):
+                k = 1 if "error" in o else 2
+                stc = self._step_case(case, st, o, pc, fc)
+                v = self._judge_mate(stc, o, answers[i:i + k])
+                if "error" not in o and (o["pc0"], o["fc0"]) != (pc, fc):
+                    v["spec"] = False
+                    v["failed"] = v.get("failed", []) + [f"counters_before_call:{o['pc0']},{o['fc0']}!={pc},{fc}"]
+                vs.append(v)
+                i += k
+            failed = [f"step{j}:{f}" for j, v in enumerate(vs) for f in v.get("failed", [])]
+            if obs["stale"]:
+                failed.append("earlier_result_changed_by_later_call:" + ",".join(map(str, obs["stale"])))
+            return {"corr": all(v["corr"] for v in vs), "spec": not failed,
+                    "nontrivial": any(v["nontrivial"] for v in vs), "failed": failed,
+                    "detail": f"history[{case['proto']}] spec_failed={failed} " +
+                              " || ".join(f"step{j}: {v['detail']}" for j, v in enumerate(vs)
+                                          if not (v["corr"] and v["spec"]))[:1500]}
+        return self._judge_mate(case, obs, answers)
+
+    def _judge_mate(self, case, obs, answers):
         m = answers[0]["ok"]
         if "error" in obs:
             # the property says nothing about how an invalid input is rejected: only "both reject" is compared
@@ -607,10 +1189,8 @@ class C01(Prop):
         s = answers[1]["ok"]
         keys = ("mat", "taxa", "taxa_grp", "pc", "fc", "grp_name", "grp_stix", "grp_spix", "grp_len", "meta")
         diff = [k for k in keys if m.get(k) != obs[k]] if "error" not in m else ["model rejected: " + m["error"]]
-        corr = not diff and not obs["bad_calls"]
+        corr = not diff and not obs["bad_calls"] and not obs["args_changed"]
         lost = list(obs["meta_lost"])
-        if self._mask_known:
-            lost = [f for f in lost if f not in KNOWN_META]
         failed = []
         if not s["ok"]:
             failed.append("lean:" + s["detail"])
@@ -621,7 +1201,8 @@ class C01(Prop):
         spec = not failed
         return {"corr": corr, "spec": spec, "nontrivial": self._nontrivial(case, obs), "failed": failed,
                 "detail": f"{case['kind']} spec_failed={failed} model_vs_impl_diff={diff} "
-                          f"uniform_calls={obs['shapes']} bad_calls={obs['bad_calls']} dtype={obs['dtype']}"}
+                          f"uniform_calls={obs['shapes']} bad_calls={obs['bad_calls']} args_changed={obs['args_changed']} "
+                          f"dtype={obs['dtype']}"}
 
     @staticmethod
     def _nontrivial(case, obs):
@@ -635,7 +1216,7 @@ class C01(Prop):
         het = any(len({v % nt for v in r}) > 1 or g[0][r[0] % nt] != g[1][r[0] % nt] for r in case["xconfig"])
         return xover and het
 
-    def _judge_util(self, case, obs, m):
+    def _judge_util(self, case, obs, m, lean_spec):
         xo = [_fr(v) for v in case["xo"]]
         g = case["geno"]
         res = obs["res"]
@@ -657,14 +1238,35 @@ class C01(Prop):
                 _mosaic([mg[0][s], mg[1][s]], xo, row) for s, row in zip(case["msel"], res[1]))
         den = obs["dden"]
         xover = any(Fraction(v, den) < xo[j] for mm in obs["draws"] for r in mm for j, v in enumerate(r))
-        return {"corr": corr, "spec": spec, "nontrivial": bool(xover and case["sel"]),
+        # the verdict is the Lean oracle's (Mating.specGametes/specDh/specCross, proved sound and complete); the
+        # Python recurrence above is an independent second implementation that must agree with it
+        py_spec = spec
+        agree = bool(py_spec) == bool(ok and lean_spec)
+        spec = bool(ok and lean_spec)
+        return {"corr": corr and agree, "spec": spec, "nontrivial": bool(xover and case["sel"]),
                 "failed": [] if spec else ["util:" + fn],
-                "detail": f"util {case['module']}.{fn} model={str(m)[:300]} impl={str(res)[:300]}"}
+                "detail": f"util {case['module']}.{fn} oracles_agree={agree} model={str(m)[:300]} impl={str(res)[:300]}"}
 
     # ------------------------------------------------------------------ findings / shrinking
+    @staticmethod
+    def _count_product_wraps(case):
+        """finding D70: a per-cross product nmating*nprogeny that the count dtype of the case cannot hold, in one of the
+        three protocols that form the product in that dtype"""
+        if case.get("kind") not in ("self", "2w", "3w") or case.get("cdtype") in (None, "int64", "uint64"):
+            return False
+        dt = numpy.dtype(case["cdtype"])
+        lim = numpy.iinfo(dt).max
+        n = len(case["xconfig"])
+        nm = case["nmating"] if isinstance(case["nmating"], list) else [case["nmating"]] * n
+        npg = case["nprogeny"] if isinstance(case["nprogeny"], list) else [case["nprogeny"]] * n
+        return any(a * b > lim for a, b in zip(nm, npg))
+
     def signature(self, case, obs, verdict):
         failed = verdict.get("failed") or []
         sig = {"kind": case.get("kind"), "site": "mate" if case.get("kind") != "util" else "util"}
+        if self._count_product_wraps(case):
+            sig["cond"] = "count_product_wraps"
+            return sig
         if failed and all(f.startswith("meta_lost:") for f in failed):
             lost = set(failed[0].split(":", 1)[1].split(","))
             sig["cond"] = "hapalt_hapref_dropped" if lost <= KNOWN_META else "vrnt_metadata_dropped"
@@ -685,6 +1287,38 @@ class C01(Prop):
                     c["msel"] = case["msel"][:i] + case["msel"][i + 1:]
                 yield c
             return
+        if case.get("kind") == "hist":
+            steps = case["steps"]
+            chained = any(st.get("reuse") == "chain" for st in steps)
+            for st in steps:                              # a single call that fails by itself
+                if st.get("geno") is not None:
+                    yield dict({k: v for k, v in st.items() if k not in ("reuse", "xreuse", "xo_assign")},
+                               kind=case["proto"], pc=case["pc"], fc=case["fc"], rng=case["rng"])
+            if len(steps) > 1:
+                yield dict(case, steps=steps[:-1])
+                if not chained:
+                    yield dict(case, steps=[steps[0]] + steps[2:])
+            if chained:
+                return
+            for i, st in enumerate(steps):                # simplify one step
+                for k in ("nmating", "nprogeny"):
+                    if isinstance(st[k], int) and st[k] > 1:
+                        yield dict(case, steps=steps[:i] + [dict(st, **{k: st[k] - 1})] + steps[i + 1:])
+                if st["nself"] > 0:
+                    yield dict(case, steps=steps[:i] + [dict(st, nself=st["nself"] - 1)] + steps[i + 1:])
+                if len(st["xconfig"]) > 1 and not st.get("xreuse") and not (i + 1 < len(steps) and steps[i + 1].get("xreuse")):
+                    for j in range(len(st["xconfig"])):
+                        c2 = dict(st, xconfig=st["xconfig"][:j] + st["xconfig"][j + 1:])
+                        for k in ("nmating", "nprogeny"):
+                            if isinstance(st[k], list):
+                                c2[k] = st[k][:j] + st[k][j + 1:]
+                        yield dict(case, steps=steps[:i] + [c2] + steps[i + 1:])
+            if case.get("rng_none"):
+                yield {k: v for k, v in case.items() if k != "rng_none"}
+            return
+        for opt in ("xdtype", "xorder", "cdtype", "gorder", "nself_np", "miscout", "rng_none", "bare_taxa"):
+            if opt in case:                               # drop a rarely used argument form
+                yield {k: v for k, v in case.items() if k != opt}
         xc = case["xconfig"]
         for i in range(len(xc)):                          # drop a cross
             c = dict(case)
@@ -757,6 +1391,9 @@ class C01(Prop):
             src = inspect.getsource(fn).replace("\r\n", "\n")
             olds, news = ([old], [new]) if isinstance(old, str) else (old, new)
             for old, new in zip(olds, news):
+                if src.count(old) < 1 and "nmating * nprogeny" in old:
+                    # the tree with the proposed repair of finding D70 names the int64 product `nxprogeny`
+                    old, new = old.replace("nmating * nprogeny", "nxprogeny"), new.replace("nmating * nprogeny", "nxprogeny")
                 if src.count(old) < 1:
                     raise RuntimeError(f"mutant anchor not found in {fn.__qualname__}: {old!r}")
                 if which == "first":
@@ -849,8 +1486,86 @@ class C01(Prop):
                     yield
             return ctx
 
+        def colblock(blk):
+            """column-chunked copy loop whose phase restarts in every block of `blk` markers"""
+            def f(geno, sel, xoprob, rng):
+                gshape = (len(sel), len(xoprob))
+                rnd = rng.uniform(0, 1, gshape)
+                gamete = numpy.empty(gshape, dtype=geno.dtype)
+                for i, s_ in enumerate(sel):
+                    for c0 in range(0, gshape[1], blk):
+                        c1 = min(c0 + blk, gshape[1])
+                        xoix = numpy.flatnonzero(rnd[i, c0:c1] < xoprob[c0:c1]) + c0
+                        phase, stix = 0, c0
+                        for spix in xoix:
+                            gamete[i, stix:spix] = geno[phase, s_, stix:spix]
+                            stix = spix
+                            phase = 1 - phase
+                        gamete[i, stix:c1] = geno[phase, s_, stix:c1]
+                return gamete
+            return f
+
+        def colblock_ctx():
+            @contextlib.contextmanager
+            def ctx():
+                with setattr_ctx(U, "mat_meiosis", colblock(1024)), setattr_ctx(Cc, "dense_meiosis", colblock(1024)):
+                    yield
+            return ctx
+
+        _buf = {}
+
+        def buffered_mate(orig):
+            """mat_mate that returns a per-shape workspace it keeps re-using: a later call overwrites an earlier result"""
+            def f(fg, mg, fs, ms, xo, rng):
+                r = orig(fg, mg, fs, ms, xo, rng)
+                b = _buf.get(r.shape)
+                if b is None or b.dtype != r.dtype:
+                    b = _buf[r.shape] = numpy.empty_like(r)
+                b[...] = r
+                return b
+            return f
+
+        FLOAT32 = ("rnd = rng.random(gshape, dtype = numpy.float32) if isinstance(rng, numpy.random.Generator) "
+                   "else rng.uniform(0, 1, gshape)")
         REP = "numpy.repeat(nprogeny, nmating)"
         ms = [
+            # -- round 3: one mutant per class of inputs added in round 3
+            ("r3_meiosis_negative_index_clipped", both_meiosis("for i,s in enumerate(sel):",
+                "for i,s in enumerate(numpy.clip(sel, 0, geno.shape[1] - 1)):")),
+            ("r3_meiosis_float32_draws_and_le", src_mutant(U, "mat_meiosis",
+                ["rnd = rng.uniform(0, 1, gshape)", "rnd[i] < xoprob"], [FLOAT32, "rnd[i] <= xoprob"])),
+            ("r3_meiosis_eps_tolerance", both_meiosis("rnd[i] < xoprob", "rnd[i] < xoprob + 1e-12")),
+            ("r3_meiosis_xoprob_clipped_from_below", both_meiosis("rnd[i] < xoprob", "rnd[i] < numpy.clip(xoprob, 1e-9, 1.0)")),
+            ("r3_meiosis_isclose_counts_as_hit", both_meiosis("rnd[i] < xoprob",
+                "(rnd[i] < xoprob) | numpy.isclose(rnd[i], xoprob)")),
+            ("r3_meiosis_column_blocks_restart_phase", colblock_ctx()),
+            ("r3_meiosis_assumes_c_contiguous", both_meiosis(
+                ["gamete[i,stix:spix] = geno[phase,s,stix:spix]", "gamete[i,stix:] = geno[phase,s,stix:]"],
+                ["gamete[i,stix:spix] = geno.ravel(order='K').reshape(geno.shape)[phase,s,stix:spix]",
+                 "gamete[i,stix:] = geno.ravel(order='K').reshape(geno.shape)[phase,s,stix:]"])),
+            ("r3_dense_meiosis_hits_only_at_heterozygous_loci", src_mutant(Cc, "dense_meiosis",
+                "rnd[i] < xoprob)", "(rnd[i] < xoprob) & (geno[0,s] != geno[1,s]))")),
+            ("r3_4wdh_hybrid_index_in_xconfig_dtype", src_mutant(cls("4wdh"), "mate",
+                ["absel = numpy.arange(abgeno.shape[1])", "cdsel = numpy.arange(cdgeno.shape[1])"],
+                ["absel = numpy.arange(len(f1sel), dtype = f1sel.dtype)", "cdsel = numpy.arange(len(f2sel), dtype = f2sel.dtype)"])),
+            ("r3_2w_selfing_index_in_xconfig_dtype", src_mutant(cls("2w"), "mate",
+                "asel = numpy.arange(hgeno.shape[1])", "asel = numpy.arange(hgeno.shape[1], dtype = fsel.dtype)")),
+            ("r3_3w_f1_index_in_xconfig_dtype", src_mutant(cls("3w"), "mate",
+                "numpy.arange(f1geno.shape[1]),", "numpy.arange(f1geno.shape[1], dtype = fsel.dtype),")),
+            ("r3_self_parent_index_cast_int8", src_mutant(cls("self"), "mate",
+                "fsel = numpy.repeat(xconfig[:,0], nmating * nprogeny)",
+                "fsel = numpy.repeat(xconfig[:,0].astype('int8'), nmating * nprogeny)")),
+            ("r3_2wdh_xconfig_read_in_memory_order", src_mutant(cls("2wdh"), "mate",
+                "fsel = numpy.repeat(xconfig[:,0], nmating)", "fsel = numpy.repeat(xconfig.ravel(order = 'K')[0::2], nmating)")),
+            ("r3_3w_protocol_remembers_first_xoprob", src_mutant(cls("3w"), "mate",
+                "xoprob = pgmat.vrnt_xoprob", "xoprob = self.__dict__.setdefault('_xo_memo', pgmat.vrnt_xoprob)")),
+            ("r3_2w_protocol_remembers_first_genotypes", src_mutant(cls("2w"), "mate",
+                "geno = pgmat.mat", "geno = self.__dict__.setdefault('_geno_memo', pgmat.mat.copy())")),
+            ("r3_4w_selection_cached_by_shape", src_mutant(cls("4w"), "mate",
+                "f1sel = numpy.repeat(xconfig[:,2], nmating)",
+                "f1sel = self.__dict__.setdefault(('f1sel', xconfig.shape, len(nmating)), numpy.repeat(xconfig[:,2], nmating))")),
+            ("r3_mat_mate_returns_reused_workspace", everywhere("mat_mate", buffered_mate(U.mat_mate))),
+
             # -- mechanism 1: segment-copy loop (both copies: mat_meiosis and dense_meiosis)
             ("meiosis_le", both_meiosis("rnd[i] < xoprob", "rnd[i] <= xoprob")),
             ("meiosis_start_phase_1", both_meiosis("phase = 0", "phase = 1")),
